@@ -11,8 +11,8 @@ Two modes:
     before the with-body and before every lock operation of the extractor module; the controller
     grants one thread at a time, so a schedule (sequence of thread ids) is executed exactly.
     Module-level locks of the extractor are wrapped in a proxy so that "blocked" is observed
-    deterministically (non-blocking acquire failed), not guessed with a timeout; a timeout remains
-    as a fallback for unknown blocking mechanisms.
+    deterministically (non-blocking acquire failed), not guessed with a timeout; a timeout (30 s, then
+    3 s) remains as a fallback for unknown blocking mechanisms.
   * free (code -> spec): threads run unscheduled; the interception performs the operation and
     appends the event under one recorder lock, so the recorded order is the real order.
 
@@ -35,8 +35,10 @@ import types
 
 from .tlc import MachineryError
 
-ATTR_TIMEOUT = 10.0          # fallback only: a granted thread neither parked, finished nor reported blocked
-_LOCK_TYPES = (type(threading.Lock()), type(threading.RLock()))
+ATTR_TIMEOUT = 30.0          # fallback only: a granted thread neither parked, finished nor reported blocked
+STUCK_TIMEOUT = 3.0          # ... after that has happened once in this process (unknown blocking mechanism)
+_stuck_seen = []
+_LOCK_TYPES = (type(threading.Lock()), type(threading.RLock()), threading.Semaphore)   # incl. BoundedSemaphore
 
 
 class _Boom(Exception):
@@ -274,10 +276,11 @@ class Scheduler:
             self.arr[t].put(("done",))
 
     # ---- controller side
-    def _await(self, t, timeout=ATTR_TIMEOUT):
+    def _await(self, t):
         try:
-            a = self.arr[t].get(timeout=timeout)
+            a = self.arr[t].get(timeout=STUCK_TIMEOUT if _stuck_seen else ATTR_TIMEOUT)
         except queue.Empty:
+            _stuck_seen.append(t)
             return None
         if a[0] == "park":
             self.pending[t] = a[1]
@@ -393,8 +396,11 @@ class Harness:
         s.start()
         note = ""
         for t in schedule:
-            if s.step(t) == "stuck":
-                note = "stuck"
+            s.step(t)               # 'stuck' (timeout fallback) has been recorded as a Blocked event
+        if len(_stuck_seen) > 20:
+            raise MachineryError("threads block on something this harness cannot observe deterministically "
+                                 "(not a threading.Lock/RLock/Semaphore global of the pdf extractor package): "
+                                 "extend mbv/c15_sched.py:_LOCK_TYPES")
         quiet = s.drain()
         if not quiet:
             note = "deadlock"
@@ -408,7 +414,10 @@ class Harness:
             note = "threads alive"
         if not (quiet and joined):               # stranded threads may hold a lock for ever: replace them
             for i, (m, k_, v) in enumerate(self._proxied):
-                fresh = threading.RLock() if isinstance(v, type(threading.RLock())) else threading.Lock()
+                if isinstance(v, threading.Semaphore):
+                    fresh = type(v)(getattr(v, "_initial_value", 1))
+                else:
+                    fresh = threading.RLock() if isinstance(v, type(threading.RLock())) else threading.Lock()
                 setattr(m, k_, _LockProxy(fresh, k_, rec))
         ev = rec.take()
         rec.reset_binding()
